@@ -162,7 +162,7 @@ class DataKindsForce(Suite):
             return f'{case}: the request after forcing fails: {obs["v2_error"]}'
         if obs['runs_forced'] != 1:
             return f'{case}: the request after forcing ran the task {obs["runs_forced"]} times'
-        if json.dumps(obs['v2'], sort_keys=True, default=str) == json.dumps(obs['v1'], sort_keys=True, default=str) and case['kind'] != 'continues':
+        if json.dumps(obs['v2'], sort_keys=True, default=str) == json.dumps(obs['v1'], sort_keys=True, default=str):
             return f'{case}: the forced request returned the value of the first run'
         if not obs['has_end'] or obs['runs_total'] != 1:
             return f'{case}: after the forced run a new chain has_data={obs["has_end"]} and {obs["runs_total"] - 1} further run(s)'
@@ -512,9 +512,79 @@ class UnreadInputs(Suite):
         return repr(case)
 
 
+class ForceSharedObject(Suite):
+    """a task object shared by two member chains of a MultiChain under different namespaces (the pipeline `stage` is
+    `a` in the first member and `b` in the second, where another pipeline is `a`): Chain.force / dependent_tasks given
+    that *object* act on the task it is in the chain that is asked - it and everything downstream of it there, nothing
+    else - whatever name the object was created under.  Runtime check only."""
+    name = 'force_shared_task_object'
+    model = ''
+
+    def gen(self, rng, tier):
+        return [dict(order=o, delete=d, recompute=r, via=v) for o in ('ab', 'ba') for d in (False, True) for r in (False, True)
+                for v in ('force', 'dependent_tasks')][:12 if tier == 'quick' else None]
+
+    def run_impl(self, case):
+        from pathlib import Path
+        from taskchain import Config, MultiChain
+        from .. import pipeline as pl
+        from ..suites_chain import K, P
+        classes = [dict(K(0, 'Load', params=[P('v')]), name='load'), dict(K(1, 'Clean', meta_inputs=[{'cls': 0}]), name='clean'),
+                   dict(K(2, 'Compare', meta_inputs=[{'name': 'a::clean'}, {'name': 'b::clean'}]), name='compare')]
+        files = {'stage.json': {'tasks': ['@M.Load', '@M.Clean'], 'v': 1}, 'other.json': {'tasks': ['@M.Load', '@M.Clean'], 'v': 2},
+                 'exp1.json': {'uses': ['stage.json as a']},
+                 'exp2.json': {'tasks': ['@M.Compare'], 'uses': ['stage.json as b', 'other.json as a'] if case['order'] == 'ba'
+                               else ['other.json as a', 'stage.json as b']}}
+        with pl.workspace(dict(classes=classes, files=files)) as (d, mod):
+            mc = MultiChain([Config(Path('data'), 'exp1.json'), Config(Path('data'), 'exp2.json')])
+            c1, c2 = mc.chains['exp1'], mc.chains['exp2']
+            for t in list(c1.tasks.values()) + list(c2.tasks.values()):
+                t.value
+            obj = c2.tasks['b::load']
+            out = dict(shared=obj is c1.tasks['a::load'], fullname=obj.fullname)
+            if case['via'] == 'dependent_tasks':
+                deps = c2.dependent_tasks(obj, include_self=True)
+                out['names'] = sorted(n for n, t in c2.tasks.items() if any(t is x for x in deps))
+                return out
+            before = pl.runs_started()
+            c2.force(obj, recompute=case['recompute'], delete_data=case['delete'])
+            out['runs'] = pl.runs_started() - before
+            out['flags'] = {n: bool(t.is_forced) for n, t in c2.tasks.items()}
+            out['has'] = {n: bool(t.has_data) for n, t in c2.tasks.items()}
+            return out
+
+    def oracle(self, case, obs):
+        if 'unexpected_exception' in obs:
+            return f'unexpected exception {obs["unexpected_exception"]}: {obs["text"]}'
+        want = ['b::clean', 'b::load', 'compare']
+        if case['via'] == 'dependent_tasks':
+            if obs['names'] != want:
+                return (f'{case}: dependent_tasks of the object known as b::load (created as {obs["fullname"]}) in the second chain '
+                        f'are {obs["names"]}, declared: {want}')
+            return None
+        if case['recompute']:
+            if obs['runs'] != 3 or any(obs['flags'].values()) or not all(obs['has'].values()):
+                return (f'{case}: force(recompute=True) of the object known as b::load ran {obs["runs"]} tasks (3 are downstream), '
+                        f'left marks {obs["flags"]} and results {obs["has"]}')
+            return None
+        marked = sorted(n for n, f in obs['flags'].items() if f)
+        if marked != want:
+            return f'{case}: force of the object known as b::load (created as {obs["fullname"]}) marked {marked} in the second chain, declared closure: {want}'
+        gone = sorted(n for n, h in obs['has'].items() if not h)
+        if gone != (want if case['delete'] else []):
+            return f'{case}: stored results removed: {gone}; delete_data={case["delete"]} and the closure is {want}'
+        return None
+
+    def nontrivial(self, case, obs):
+        return bool(obs.get('shared'))
+
+    def key(self, case):
+        return repr(case)
+
+
 class C07(Prop):
     pid = 'C07'
-    suites = [Forcing(), NameModeForce(), DataKindsForce(), FailingRecompute(), ChainForceForms(), UnreadInputs()]
+    suites = [Forcing(), NameModeForce(), DataKindsForce(), FailingRecompute(), ChainForceForms(), UnreadInputs(), ForceSharedObject()]
     assumptions = ['Chain.force iterates a set: the recomputation order is arbitrary, the model uses one order and the '
                    'comparison sorts the runs of that operation']
 
